@@ -817,6 +817,7 @@ func (d *D) RunItem(idx int, ctx *core.Ctx) {
 	space := enumerate(base.trace)
 	ctx.Inc("fault_points_total", int64(len(space)))
 	fi := 0
+	secondLevel := 0
 	for _, fs := range space {
 		o := d.execute(sc, fs)
 		ctx.Inc("evaluations", 1)
@@ -831,6 +832,29 @@ func (d *D) RunItem(idx int, ctx *core.Ctx) {
 			f.OSFault = fs
 			ctx.Violate(f, v)
 			continue
+		}
+		// a command that carries on after a failed operation (a fallback, a retry, clean-up) opens a
+		// second level: every single fault in whatever it does AFTER the failure is executed as well
+		if len(fs) == 1 && !o.crashed && len(o.fired) > 0 && len(o.trace) > fs[0].Op+1 && secondLevel < 600 {
+			for _, f2 := range enumerate(o.trace[fs[0].Op+1:]) {
+				if secondLevel >= 600 {
+					break
+				}
+				secondLevel++
+				pair := []simos.Fault{fs[0], f2[0]}
+				o2 := d.execute(sc, pair)
+				ctx.Inc("evaluations", 1)
+				ctx.Inc("second_level_fault_runs", 1)
+				d.account(ctx, o2)
+				ctx.Sched(prng.HashString(traceSig(o2.trace) + describe(pair)))
+				if v := invariants(sc, o2, pair); v != nil {
+					f := sc.Clone()
+					f.OSFault = pair
+					v.Signature = "after-failure:" + v.Signature
+					ctx.Violate(f, v)
+					break
+				}
+			}
 		}
 		// history: whatever this (killed or failed) run left behind is still there
 		// when the user edits the file and formats again
@@ -1028,7 +1052,7 @@ func (d *D) Describe(ev *core.Evidence, st *core.Stats) {
 	ev.Coverage["faults_injected"] = fired
 	ev.Coverage["traces_validated_against_impl"] = c["conformance_agree"]
 	ev.Coverage["conformance"] = map[string]int64{"runs": c["conformance_runs"], "agree_with_in_process": c["conformance_agree"], "skipped_no_ptrace": c["conformance_skipped"], "injection_not_hit": c["conformance_not_hit"]}
-	ev.Coverage["probes"] = map[string]int64{"torn_write": c["probe_torn_write"], "close_failed_after_full_write": c["probe_close_failed_after_full_write"], "runs_with_leftover_temp_files": c["runs_with_leftover_temp_files"]}
+	ev.Coverage["probes"] = map[string]int64{"torn_write": c["probe_torn_write"], "close_failed_after_full_write": c["probe_close_failed_after_full_write"], "runs_with_leftover_temp_files": c["runs_with_leftover_temp_files"], "second_level_fault_runs(command carried on after a failure)": c["second_level_fault_runs"]}
 	ev.Coverage["components"] = map[string][]string{
 		"real": {"kong flag parsing", "fmtCmd.Run / fmtEvyFile / fmtTxtarFile / format / writeAtomically", "parser and formatter", "the kernel's file system (real directory on tmpfs)", "conformance layer: the real evy binary under strace fault/kill injection"},
 		"stub": {"os package calls of package main and pkg/cli (simos: decision points around the real calls)", "process exit (panic recovered by the driver)"}}
